@@ -61,6 +61,41 @@ def compare_arms(ck, rule, name_a, sig_a, name_b, sig_b, ignore=()):
                        % (var, name_a, ", ".join(sorted(only_a)), name_b, ", ".join(sorted(only_b))))
 
 
+def reaches_call(fx, f, suffixes, scope_prefix="interpreter::Interpreter::", depth=2, _seen=None):
+    """blocks of `f` whose call is one of `suffixes`, or a call of a private helper of the interpreter from which such a call is reached
+    (a helper extracted from an entry point: `parse_source`, `begin_new_run`, `enter_main_module_scope`)"""
+    _seen = _seen if _seen is not None else set()
+    out = []
+    for bi, t in f.calls():
+        d = t[1].get("d") or ""
+        if d.endswith(suffixes):
+            out.append(bi)
+        elif depth > 0 and t[1].get("local") and d.startswith(scope_prefix) and d in fx.fns and d not in _seen and d != f.path:
+            g = fx.fns[d]
+            if g.vis != "Public" and len(g.blocks) < 80 and reaches_call(fx, g, suffixes, scope_prefix, depth - 1, _seen | {f.path}):
+                out.append(bi)
+    return out
+
+
+def writes_fields(fx, f, owner, scope_prefix="interpreter::Interpreter::", depth=1):
+    """Interpreter fields the function assigns, itself or in the private helpers it calls (one level)"""
+    w = set()
+    for bl in f.blocks:
+        if bl["c"]:
+            continue
+        for s_ in bl["s"]:
+            if s_[0] == "a":
+                for a, v, n in F.place_fields(s_[1]):
+                    if a == owner:
+                        w.add(n)
+    if depth > 0:
+        for bi, t in f.calls():
+            d = t[1].get("d") or ""
+            if t[1].get("local") and d.startswith(scope_prefix) and d in fx.fns and d != f.path and fx.fns[d].vis != "Public" and len(fx.fns[d].blocks) < 80:
+                w |= writes_fields(fx, fx.fns[d], owner, scope_prefix, depth - 1)
+    return w
+
+
 def entry_path_rule(fx, ck, name="S10.entry-installs-path", scope=lambda g: g.path.startswith("interpreter::Interpreter::"), owner="interpreter::Interpreter",
                     path_ty="ModulePath", parser=("::Parser::<'a>::new", "Parser::new")):
     """The entry points that take the source and its module path (`eval`, `prepare`) are siblings: a field of the interpreter that one of
@@ -74,7 +109,7 @@ def entry_path_rule(fx, ck, name="S10.entry-installs-path", scope=lambda g: g.pa
         if f.closure or f.derived or not scope(f):
             continue
         params = [i for i in range(1, f.argc + 1) if path_ty in fx.tys(f.locals[i]) and fx.tys(f.locals[i]).startswith("std::option::Option<")]
-        if not params or not any((t[1].get("d") or "").endswith(parser) for _, t in f.calls()):
+        if not params or not reaches_call(fx, f, parser) or f.vis != "Public":
             continue
         entries.append((f, params))
     table = {}
@@ -98,6 +133,38 @@ def entry_path_rule(fx, ck, name="S10.entry-installs-path", scope=lambda g: g.pa
                 srcs = [pl[0] for pl in F.rvalue_places(s_[2])]
                 if any(x in derived for x in srcs):
                     stores.setdefault(fl[-1][2], set()).add(bi)
+        # a private helper that is handed the parameter (`begin_new_run(&module_path)`) and stores it on every path: the call is the store
+        for bi, t in f.calls():
+            d = t[1].get("d") or ""
+            if not (t[1].get("local") and d.startswith(owner + "::") and d in fx.fns and fx.fns[d].vis != "Public"):
+                continue
+            g = fx.fns[d]
+            for k, a in enumerate(t[2]):
+                if a[0] in ("c", "m") and a[1][0] in derived and k + 1 <= g.argc and path_ty in fx.tys(g.locals[k + 1]):
+                    gder = {l for l in range(len(g.locals)) if (k + 1) in ancestors(g, l)}
+                    grets = {b for b, bl in enumerate(g.blocks) if bl["t"][0] == "ret"}
+                    gst = {}
+                    for b, bl in enumerate(g.blocks):
+                        if bl["c"]:
+                            continue
+                        for s_ in bl["s"]:
+                            if s_[0] == "a":
+                                fl = [x for x in F.place_fields(s_[1]) if x[0] == owner and x[2] in path_fields]
+                                if fl and any(pl[0] in gder for pl in F.rvalue_places(s_[2])):
+                                    gst.setdefault(fl[-1][2], set()).add(b)
+                    for field, blocks in gst.items():
+                        seen, work, leak = set(), [0], False
+                        while work:
+                            x = work.pop()
+                            if x in seen or x in blocks:
+                                continue
+                            seen.add(x)
+                            if x in grets:
+                                leak = True
+                                break
+                            work.extend(g.succ(x))
+                        if not leak:
+                            stores.setdefault(field, set()).add(bi)
         rets = {bi for bi, bl in enumerate(f.blocks) if bl["t"][0] == "ret"}
         errs = {bi for bi, t in f.calls() if (t[1].get("d") or "").endswith("::from_residual")}
         for bi, bl in enumerate(f.blocks):
@@ -144,17 +211,9 @@ def handover_rule(fx, ck, name="S11.scope-installers-hand-over", owner="interpre
     for p, f in sorted(fx.fns.items()):
         if f.closure or f.derived or not p.startswith(owner + "::"):
             continue
-        if not any((t[1].get("d") or "").endswith("::create_module_environment") for _, t in f.calls()):
+        if not reaches_call(fx, f, ("::create_module_environment",), depth=1):
             continue
-        writes = set()
-        for bl in f.blocks:
-            if bl["c"]:
-                continue
-            for s_ in bl["s"]:
-                if s_[0] == "a":
-                    for a, v, n in F.place_fields(s_[1]):
-                        if a == owner:
-                            writes.add(n)
+        writes = writes_fields(fx, f, owner)
         # ... of a program: the function answers with a StepResult (dependency modules run to completion and restore the scope themselves)
         if "env" in writes and f.sig and "StepResult" in fx.tys(f.sig[-1]):
             installers.append((f, writes))
@@ -231,10 +290,28 @@ def need_imports_only_outcome(fx, ck, name="S8.need-imports"):
     def builds(f, b):
         return any(s[0] == "a" and s[2][0] == "agg" and isinstance(s[2][1], dict) and s[2][1].get("p", "").endswith("StepResult")
                    and s[2][1].get("v") == "NeedImports" for s in f.blocks[b]["s"])
+    import c10 as c10_
+    # helpers that wrap their parameter in the answer (`defer_program_until_imported(program, requests) -> StepResult`)
+    wrappers = {}
+    for g in fx.fns.values():
+        if g.derived or g.closure:
+            continue
+        for b in range(len(g.blocks)):
+            if builds(g, b):
+                o = next((s_[2][2][0] for s_ in g.blocks[b]["s"] if s_[0] == "a" and s_[2][0] == "agg" and isinstance(s_[2][1], dict)
+                          and s_[2][1].get("v") == "NeedImports" and s_[2][2]), None)
+                if o is not None and o[0] in ("c", "m"):
+                    r_ = c10_.copy_root_local(g, o[1][0])
+                    if 1 <= r_ <= g.argc:
+                        wrappers[g.path] = r_
     for f in fx.fns.values():
         if f.derived:
             continue
         sites = [b for b in range(len(f.blocks)) if builds(f, b)]
+        wsites = {bi: t[2][wrappers[t[1]["d"]] - 1] for bi, t in f.calls() if t[1].get("d") in wrappers and wrappers[t[1]["d"]] - 1 < len(t[2])}
+        if f.path in wrappers:
+            continue     # judged at its call sites
+        sites = sites + sorted(wsites)
         if not sites:
             continue
         done = set()
@@ -242,7 +319,7 @@ def need_imports_only_outcome(fx, ck, name="S8.need-imports"):
             import c10
             import inplace
             # the collection handed to the host is the one whose emptiness was tested
-            opnd = next((s[2][2][0] for s in f.blocks[B]["s"] if s[0] == "a" and s[2][0] == "agg" and isinstance(s[2][1], dict)
+            opnd = wsites[B] if B in wsites else next((s[2][2][0] for s in f.blocks[B]["s"] if s[0] == "a" and s[2][0] == "agg" and isinstance(s[2][1], dict)
                          and s[2][1].get("v") == "NeedImports" and s[2][2]), None)
             if opnd is None or opnd[0] not in ("c", "m"):
                 continue
@@ -272,7 +349,7 @@ def need_imports_only_outcome(fx, ck, name="S8.need-imports"):
             escape = None
             while work:
                 x = work.pop()
-                if x in seen or builds(f, x):
+                if x in seen or builds(f, x) or x in wsites:
                     continue
                 seen.add(x)
                 tt = f.blocks[x]["t"]
@@ -468,8 +545,14 @@ def run(tier):
             "before it is returned", floor=1)
     from c09 import ancestors as anc12
     n12 = 0
+    steppers12 = {p_ for p_, g_ in fx.fns.items() if not g_.derived and not g_.closure and p_.startswith("interpreter::Interpreter::") and g_.sig
+                  and "StepResult" in fx.tys(g_.sig[-1])}
     for p12, f12 in sorted(fx.fns.items()):
-        if f12.derived or not (f12.parent if f12.closure else p12).startswith("interpreter::Interpreter::") or not f12.sig or "StepResult" not in fx.tys(f12.sig[-1]):
+        top12 = f12.parent if f12.closure else p12
+        if f12.derived or not top12.startswith("interpreter::Interpreter::") or not f12.sig:
+            continue
+        # ... or a helper of one of them (`resume_vm_with_exception(..) -> Result<(), JsError>`, called only from step())
+        if top12 not in steppers12 and not ("JsError" in fx.tys(f12.sig[-1]) and M.only_called_from(fx, top12, steppers12)):
             continue
         mats = [t for bi, t in f12.calls() if (t[1].get("d") or "").endswith("::materialize_thrown_error")]
         for bi, t in f12.calls():
